@@ -132,7 +132,8 @@ def partial_transpose(
         dim = np.array([[sqrt_rho_dims[0], sqrt_rho_dims[0]], [sqrt_rho_dims[1], sqrt_rho_dims[1]]])
     if isinstance(dim, (int, float)):
         dim = np.array([dim])
-    if isinstance(dim, list):
+    if isinstance(dim, (list, np.ndarray)):
+        # Work on a copy: the dimensions of the transposed subsystems are exchanged in place below.
         dim = np.array(dim)
     if isinstance(sys, list):
         sys = np.array(sys)
